@@ -20,6 +20,14 @@ type c08 struct {
 
 func (o *c08) report(where string, v *headView) {
 	for _, f := range v.consistency(o.s.act.name) {
+		if f.class == "delegation-balance-ne-records" {
+			// diagnostic only: the property speaks of who delegates to whom, not of the
+			// DelegationBalance field of the delegator account (read by the state dump only;
+			// takePenalty lowers Delegations[].Token without it). Counted, not a violation.
+			o.s.r.Probe("diag.delegation-balance-ne-records")
+			o.s.r.Logf("  note (outside C08's statement): %s%s", where, f.detail)
+			continue
+		}
 		o.s.r.Report(f.class, "%s%s", where, f.detail)
 	}
 }
